@@ -19,9 +19,11 @@ from .expr import I, as_int, as_real, const_int, zmax
 
 
 class VMat(VRag):
-    def __init__(self, ref, flat=False):
+    """depth None: rank 2 (cells are numbers).  depth p: rank 3 of shape (n, w, p); a cell (s, j) is the opaque vector M[s, j, :] (sort Elem)"""
+    def __init__(self, ref, flat=False, depth=None):
         VRag.__init__(self, ref)
         self.flat = flat
+        self.depth = depth
 
 
 class VMatMask(V):
@@ -36,7 +38,9 @@ class VCol(V):
         self.lst = lst
 
 
-_SORT = {'int': z3.IntSort(), 'real': z3.RealSort(), 'bool': z3.BoolSort()}
+_SORT = {'int': z3.IntSort(), 'real': z3.RealSort(), 'bool': z3.BoolSort(), 'elem': Elem}
+ZERO_CELL = z3.Function('zero_cell', z3.IntSort(), Elem)     # the all-zero vector of a given length
+NAN_CELL = z3.Function('nan_cell', z3.IntSort(), Elem)       # the all-NaN vector of a given length
 
 
 class MatrixTheory:
@@ -47,17 +51,21 @@ class MatrixTheory:
             raise Unsupported('not a matrix')
         return rc.etype, rc.count, rc.lens.arg(0), rc.data
 
-    def new_mat(self, st, etype, n, w, base='mat', data=None, flat=False):
+    def new_mat(self, st, etype, n, w, base='mat', data=None, flat=False, depth=None):
         r = st.heap.new_ref()
         if data is None:
             data = z3.Array(fresh_name(base + '.rows'), z3.IntSort(), z3.ArraySort(z3.IntSort(), _SORT[etype]))
         st.heap.rags[r] = RagCell(etype, n, z3.K(z3.IntSort(), w), data)
-        return VMat(r, flat=flat)
+        return VMat(r, flat=flat, depth=depth)
 
-    def fresh_mat(self, etype, base, st, flat=False):
+    def fresh_mat(self, etype, base, st, flat=False, cube=False):
         n, w = z3.Int(fresh_name(base + '.n')), z3.Int(fresh_name(base + '.w'))
         st.assume(z3.And(n >= 0, w >= 0))
-        return self.new_mat(st, etype, n, w, base, flat=flat)
+        depth = None
+        if cube:
+            depth = z3.Int(fresh_name(base + '.p'))
+            st.assume(depth >= 0)
+        return self.new_mat(st, etype, n, w, base, flat=flat, depth=depth)
 
     def _rng(self, s, j, n, w):
         return z3.And(s >= 0, s < n, j >= 0, j < w)
@@ -69,9 +77,9 @@ class MatrixTheory:
         if attr == 'shape':
             if base.flat:
                 raise Unsupported('.shape of a flattened matrix')
-            return VTuple([VInt(n), VInt(w)])
+            return VTuple([VInt(n), VInt(w)] + ([VInt(base.depth)] if base.depth is not None else []))
         if attr == 'ndim':
-            return VInt(1 if base.flat else 2)
+            return VInt(1 if base.flat else (2 if base.depth is None else 3))
         if attr == 'dtype':
             return VFunc('matdtype', et)
         if attr in ('flatten', 'ravel', 'astype', 'reshape', 'copy'):
@@ -82,9 +90,9 @@ class MatrixTheory:
         et, n, w, data = self.mcell(m, st)
         if name in ('flatten', 'ravel'):
             self.used('flatten()/reshape() keep elementwise correspondence (A-FLAT)')
-            return self.new_mat(st, et, n, w, data=data, flat=True)
+            return self.new_mat(st, et, n, w, data=data, flat=True, depth=m.depth)
         if name == 'copy':
-            return self.new_mat(st, et, n, w, data=data, flat=m.flat)
+            return self.new_mat(st, et, n, w, data=data, flat=m.flat, depth=m.depth)
         if name == 'astype':
             if et != 'int':
                 raise Unsupported('astype on a non-integer matrix')
@@ -92,7 +100,7 @@ class MatrixTheory:
             return self.new_mat(st, et, n, w, data=data, flat=m.flat)
         if name == 'reshape':
             shp = args[0] if len(args) == 1 else VTuple(list(args))
-            if not (isinstance(shp, VTuple) and len(shp.items) == 2):
+            if not (isinstance(shp, VTuple) and len(shp.items) == 2) or m.depth is not None:
                 raise Unsupported('reshape to a non rank-2 shape')
             a, b = as_int(shp.items[0]), as_int(shp.items[1])
             # only the reshape back to the shape it was flattened from is modelled
@@ -143,11 +151,22 @@ class MatrixTheory:
     # ---- construction ------------------------------------------------------------------------------------------
     def mat_zeros(self, shape2, dtype, st, node):
         n, w = as_int(shape2[0]), as_int(shape2[1])
+        if len(shape2) == 3:
+            p = as_int(shape2[2])
+            self.oblige(st, 'pre', 'np.zeros.non-negative-shape', z3.And(n >= 0, w >= 0, p >= 0), node, raises='ValueError')
+            self.used('rank-3 arrays as matrices of opaque trailing vectors (pyvc/mat.py)')
+            return self.new_mat(st, 'elem', n, w, data=z3.K(z3.IntSort(), z3.K(z3.IntSort(), ZERO_CELL(p))), depth=p)
         self.oblige(st, 'pre', 'np.zeros.non-negative-shape', z3.And(n >= 0, w >= 0), node, raises='ValueError')
         et = dtype.name if isinstance(dtype, VFunc) and dtype.kind == 'matdtype' else 'int'
         zero = {'int': z3.IntVal(0), 'real': z3.RealVal(0), 'bool': z3.BoolVal(False)}[et]
         self.used('rank-2 arrays (pyvc/mat.py)')
         return self.new_mat(st, et, n, w, data=z3.K(z3.IntSort(), z3.K(z3.IntSort(), zero)))
+
+    def mat_empty(self, shape3, st, node):
+        n, w, p = (as_int(x) for x in shape3)
+        self.oblige(st, 'pre', 'np.empty.non-negative-shape', z3.And(n >= 0, w >= 0, p >= 0), node, raises='ValueError')
+        self.used('rank-3 arrays as matrices of opaque trailing vectors (pyvc/mat.py)')
+        return self.new_mat(st, 'elem', n, w, 'empty', depth=p)
 
     def mat_tile(self, col, reps, st, node):
         if isinstance(col, VList) and col.nd and col.width is None and isinstance(reps, VTuple) and len(reps.items) == 2 and const_int(as_int(reps.items[1])) == 1:
@@ -200,8 +219,8 @@ class MatrixTheory:
         nhi = z3.If(hi < 0, zmax(hi + w, I(0)), z3.If(hi > w, w, hi))
         nw = zmax(nhi - nlo, I(0))
         if z3.is_int_value(z3.simplify(nlo)) and z3.simplify(nlo).as_long() == 0:
-            return self.new_mat(st, et, n, z3.simplify(nw), data=data)     # leading columns: same cells
-        r = self.new_mat(st, et, n, z3.simplify(nw), 'cols')
+            return self.new_mat(st, et, n, z3.simplify(nw), data=data, depth=m.depth)     # leading columns: same cells
+        r = self.new_mat(st, et, n, z3.simplify(nw), 'cols', depth=m.depth)
         _, _, _, rd = self.mcell(r, st)
         s, j = z3.Int(fresh_name('s')), z3.Int(fresh_name('j'))
         st.assume(z3.ForAll([s, j], z3.Implies(self._rng(s, j, n, nw), rd[s][j] == data[s][j + nlo])))
@@ -214,17 +233,54 @@ class MatrixTheory:
         et, n, w, data = self.mcell(m, st)
         c = st.heap.lists[idx.ref]
         if c.etype is None:
-            return self.new_mat(st, et, I(0), w, 'rows')
+            return self.new_mat(st, et, I(0), w, 'rows', depth=m.depth)
         if c.etype != 'int':
             raise Unsupported('matrix rows indexed by a non-integer array')
         self.used('M[index_array] row gather')
         X = c.leaves[0]
         i = z3.Int(fresh_name('i'))
         self.oblige(st, 'index', 'row-indices-in-range', z3.ForAll([i], z3.Implies(z3.And(i >= 0, i < c.length), z3.And(X[i] >= -n, X[i] < n))), node, raises='IndexError')
-        r = self.new_mat(st, et, c.length, w, 'rows')
+        r = self.new_mat(st, et, c.length, w, 'rows', depth=m.depth)
         _, _, _, rd = self.mcell(r, st)
         st.assume(z3.ForAll([i], z3.Implies(z3.And(i >= 0, i < c.length), rd[i] == data[z3.If(X[i] < 0, X[i] + n, X[i])])))
         return r
+
+    def mat_set_rows(self, m, idx, val, st, tgt):
+        """M[idx, ...] = V with idx a full slice or an index array: whole rows are replaced"""
+        et, n, w, data = self.mcell(m, st)
+        if not isinstance(val, VMat) or m.flat or val.flat or (m.depth is None) != (val.depth is None):
+            return False
+        vt, vn, vw, vd = self.mcell(val, st)
+        if vt != et:
+            return False
+        same = z3.And(vw == w, m.depth == val.depth) if m.depth is not None else (vw == w)
+        if isinstance(idx, VSlice):
+            if not all(isinstance(x, VNone) for x in (idx.start, idx.stop, idx.step)):
+                return False
+            self.oblige(st, 'pre', 'row-assignment.shapes-agree', z3.And(vn == n, same), tgt, raises='ValueError')
+            st.heap.rags[m.ref] = RagCell(et, n, z3.K(z3.IntSort(), w), vd)
+            return True
+        if not isinstance(idx, VList):
+            return False
+        c = st.heap.lists[idx.ref]
+        if c.etype is None:
+            self.oblige(st, 'pre', 'row-assignment.shapes-agree', z3.And(vn == 0, same), tgt, raises='ValueError')
+            return True
+        if c.etype != 'int':
+            return False
+        self.used('M[index_array, ...] = V row scatter (one writer wins on repeated indices)')
+        X = c.leaves[0]
+        i, r = z3.Int(fresh_name('i')), z3.Int(fresh_name('r'))
+        self.oblige(st, 'pre', 'row-assignment.shapes-agree', z3.And(vn == c.length, same), tgt, raises='ValueError')
+        self.oblige(st, 'index', 'row-assignment.indices-in-range', z3.ForAll([i], z3.Implies(z3.And(i >= 0, i < c.length), z3.And(X[i] >= 0, X[i] < n))), tgt, raises='IndexError')
+        nd = z3.Array(fresh_name('rowset.rows'), z3.IntSort(), z3.ArraySort(z3.IntSort(), _SORT[et]))
+        hit = z3.Function(fresh_name('row_written'), z3.IntSort(), z3.BoolSort())
+        wr = z3.Function(fresh_name('row_writer'), z3.IntSort(), z3.IntSort())
+        st.assume(z3.ForAll([i], z3.Implies(z3.And(i >= 0, i < c.length), hit(X[i]))))
+        st.assume(z3.ForAll([r], z3.Implies(z3.And(r >= 0, r < n, hit(r)), z3.And(wr(r) >= 0, wr(r) < c.length, X[wr(r)] == r, nd[r] == vd[wr(r)]))))
+        st.assume(z3.ForAll([r], z3.Implies(z3.And(r >= 0, r < n, z3.Not(hit(r))), nd[r] == data[r])))
+        st.heap.rags[m.ref] = RagCell(et, n, z3.K(z3.IntSort(), w), nd)
+        return True
 
     def mat_setitem(self, m, tgt, val, st):
         et, n, w, data = self.mcell(m, st)
@@ -234,6 +290,8 @@ class MatrixTheory:
             elts = list(sl.elts)
             if elts and self._is_ellipsis(elts[-1]):
                 elts = elts[:-1]
+            if len(elts) == 1:
+                return self.mat_set_rows(m, self.ev(elts[0], st), val, st, tgt)
             if len(elts) != 2:
                 return False
             X, C = self.ev(elts[0], st), self.ev(elts[1], st)
@@ -242,8 +300,10 @@ class MatrixTheory:
             _, xn, xw, xd = self.mcell(X, st)
             _, cn, cw, cd = self.mcell(C, st)
             vt, vn, vw, vd = self.mcell(val, st)
-            if vt != et:
+            if vt != et or (m.depth is None) != (val.depth is None):
                 raise Unsupported('scatter of %s values into a %s matrix' % (vt, et))
+            if m.depth is not None:
+                self.oblige(st, 'pre', 'scatter.trailing-dimension-agrees', m.depth == val.depth, tgt, raises='ValueError')
             self.used('out[X, C] = D scatter with index matrices (one writer wins on collisions)')
             self.oblige(st, 'pre', 'scatter.index-and-value-shapes-agree', z3.And(xn == cn, xw == cw, xn == vn, xw == vw), tgt, raises='IndexError')
             self.oblige(st, 'index', 'scatter.row-indices-in-range', z3.ForAll([s, j], z3.Implies(self._rng(s, j, xn, xw), z3.And(xd[s][j] >= 0, xd[s][j] < n))), tgt, raises='IndexError')
@@ -262,6 +322,13 @@ class MatrixTheory:
             st.assume(z3.ForAll([r, k], z3.Implies(z3.And(self._rng(r, k, n, w), z3.Not(hit(r, k))), nd[r][k] == data[r][k])))
             st.heap.rags[m.ref] = RagCell(et, n, z3.K(z3.IntSort(), w), nd)
             return True
+        if isinstance(sl, ast.Slice):
+            if self._full(sl) and m.depth is not None and isinstance(val, VFunc) and val.name == 'np.nan':
+                # M[:] = np.nan: every cell becomes the all-NaN vector
+                self.used('M[:] = np.nan fills every cell')
+                st.heap.rags[m.ref] = RagCell(et, n, z3.K(z3.IntSort(), w), z3.K(z3.IntSort(), z3.K(z3.IntSort(), NAN_CELL(m.depth))))
+                return True
+            return False
         idx = self.ev(sl, st)
         if isinstance(idx, VMatMask):
             if not (idx.data.eq(data)):
